@@ -17,6 +17,8 @@ import (
 
 var alphabet = []byte{'-', '.', '/', '0', '1', 'a', 'b', '~'}
 
+var escapeSensitive = []string{"+", " ", "%", "%2F", "%zz", "?", "#", "&", "=", ";", ":"}
+
 // Key draws a user key of length 1..6 over the adversarial alphabet, outside the reserved prefix.
 func Key() *rapid.Generator[string] {
 	return rapid.Custom(func(t *rapid.T) string {
@@ -35,8 +37,15 @@ func Pool(t *rapid.T, min, max int) []string {
 	n := rapid.IntRange(min, max).Draw(t, "poolSize")
 	seen := map[string]bool{}
 	var out []string
+	// a third of the pools also hold keys with characters that url-style escaping treats specially (the server
+	// derives internal record names from user keys)
+	escapes := rapid.IntRange(0, 2).Draw(t, "poolWithEscapeChars") == 0
 	for len(out) < n {
 		k := Key().Draw(t, "poolKey")
+		if escapes && rapid.IntRange(0, 1).Draw(t, "escapeChar") == 0 {
+			pos := rapid.IntRange(0, len(k)).Draw(t, "escapePos")
+			k = k[:pos] + rapid.SampledFrom(escapeSensitive).Draw(t, "escapeWhich") + k[pos:]
+		}
 		if rapid.IntRange(0, 3).Draw(t, "nest") == 0 && len(out) > 0 {
 			base := out[rapid.IntRange(0, len(out)-1).Draw(t, "nestBase")]
 			k = base + "/" + k
